@@ -1,7 +1,8 @@
 #!/venv/bin/python
 """C19 side stream on the REAL code: priority marks on (a) functions without a source file (notebook / REPL cells, handed to
-pytask.build(tasks=[…])) and (b) functions of a task module that are wrapped by a functools.wraps-style decorator BELOW the mark.
-stdin: one JSON case {"root", "kind": "pathless"|"wrapped", "tasks": [{"name", "marks": [...], "wrap": bool}]}.
+pytask.build(tasks=[…])), (b) functions of a task module with a decorator stack of marks, @task and a functools.wraps-style
+wrapper in every order, and (c) the same stacks on tasks defined inside a task generator.
+stdin: one JSON case {"root", "kind": "pathless"|"wrapped"|"generated", "tasks": [{"name", "marks": [...], "wrap": bool, "task_at": None|"top"|"mid"|"bottom"}]}.
 stdout: {"exit", "order": [names in report order], "executed": [names], "collected": n, "raised": cls|None}."""
 import json
 import linecache
@@ -10,16 +11,31 @@ import sys
 from pathlib import Path
 
 
-def render(tasks, log):
-    L = ["import functools", "import pytask", "from pathlib import Path", f"LOG = Path({str(log)!r})", "",
+def deco_lines(t):
+    """Decorator stack of one task, top to bottom. task_at: None (no @task) | "top" | "mid" (between marks and wrapper) | "bottom"."""
+    at = t.get("task_at")
+    L = ["@task"] if at == "top" else []
+    L += [f"@pytask.mark.{m}" for m in t["marks"]]
+    if at == "mid":
+        L.append("@task")
+    if t.get("wrap"):
+        L.append("@passthrough")
+    if at == "bottom":
+        L.append("@task")
+    return L
+
+
+def render(tasks, log, generated=False):
+    L = ["import functools", "import pytask", "from pytask import task", "from pathlib import Path", f"LOG = Path({str(log)!r})", "",
          "def passthrough(f):", "    @functools.wraps(f)", "    def inner(*a, **k):", "        return f(*a, **k)", "    return inner", ""]
+    ind = ""
+    if generated:
+        L += ["@task(is_generator=True)", "def task_gen():"]
+        ind = "    "
     for t in tasks:
-        for m in t["marks"]:
-            L.append(f"@pytask.mark.{m}")
-        if t.get("wrap"):
-            L.append("@passthrough")
-        L.append(f"def {t['name']}():")
-        L.append(f"    with open(LOG, 'a') as f: f.write({t['name']!r} + '\\n')")
+        L += [ind + d for d in deco_lines(t)]
+        L.append(f"{ind}def {t['name']}():")
+        L.append(f"{ind}    with open(LOG, 'a') as f: f.write({t['name']!r} + '\\n')")
         L.append("")
     return "\n".join(L) + "\n"
 
@@ -45,6 +61,7 @@ def main():
             exec(compile(src, fn, "exec"), ns)
             session = pytask.build(tasks=[ns[t["name"]] for t in case["tasks"]])
         else:
+            src = render(case["tasks"], log, generated=case["kind"] == "generated")
             (root / "task_prio.py").write_text(src)
             session = pytask.build(paths=[root])
         res["exit"] = int(session.exit_code)
